@@ -358,3 +358,46 @@ def min_nonzero_delta(model, x, ref):
 					best = min(best, float(nz.min()))
 			hx, hr = layer(hx), layer(hr)
 	return best
+
+
+def min_pool_margin(model, inputs):
+	"""Smallest (largest - second largest) value inside any max-pooling
+	window when `model` (in eval mode) is run on the tuple `inputs`: 0 means
+	an exact tie for a window maximum.  On a tie the maximising position is
+	decided by rounding noise of the layers before it, so position-wise
+	multipliers are not unique there.  Returns inf when there is no pooling
+	layer with k >= 2."""
+	margins = []
+
+	def hook(mod, inp, out):
+		x = inp[0].detach()
+		k, s, p, d = (mod.kernel_size, mod.stride, mod.padding, mod.dilation)
+		k, s, p, d = [v[0] if isinstance(v, (tuple, list)) else v for v in (k,
+			s, p, d)]
+		if k < 2:
+			return
+		span = (k - 1) * d + 1
+		xp = torch.nn.functional.pad(x, (p, p + span + s), value=float(
+			"-inf"))
+		w = xp.unfold(-1, span, s)[..., ::d]
+		n_out = out.shape[-1]
+		w = w[..., :n_out, :]
+		top = torch.topk(w, 2, dim=-1)[0]
+		m = top[..., 0] - top[..., 1]
+		m = m[torch.isfinite(m)]
+		if m.numel():
+			margins.append(float(m.min()))
+
+	hs = [m.register_forward_hook(hook) for m in model.modules()
+		if isinstance(m, torch.nn.MaxPool1d)]
+	was = [(m, m.training) for m in model.modules()]
+	try:
+		model.eval()
+		with torch.no_grad():
+			model(*inputs)
+	finally:
+		for h in hs:
+			h.remove()
+		for m, t in was:
+			m.training = t
+	return min(margins) if margins else float("inf")
